@@ -133,6 +133,14 @@ func evidenceDir() string {
 	return filepath.Join(verifDir, "evidence")
 }
 
+// replaysDir: like evidenceDir, replay files of runs against another tree do not go to /verif/replays.
+func replaysDir() string {
+	if d := os.Getenv("VERIF_REPO"); d != "" && d != "/repo" {
+		return filepath.Join(os.TempDir(), "verif-replays-other-tree")
+	}
+	return filepath.Join(verifDir, "replays")
+}
+
 func die2(format string, a ...any) {
 	fmt.Fprintf(os.Stderr, "vsim: "+format+"\n", a...)
 	os.Exit(2)
@@ -331,7 +339,7 @@ func cmdCheck(args []string) int {
 	b := build(pc)
 	defer b.cleanup()
 	fmt.Printf("vsim: instrumented tree %s (%v), build %.1fs\n", b.tree, b.sites, time.Since(start).Seconds())
-	replayDir := filepath.Join(verifDir, "replays")
+	replayDir := replaysDir()
 	_ = os.MkdirAll(replayDir, 0o755)
 	var openKeys []string
 	for _, k := range loadKnown() {
